@@ -3,6 +3,7 @@ package props
 import (
 	"fmt"
 	"reflect"
+	"sync"
 	"time"
 
 	psatoken "github.com/veraison/psatoken"
@@ -94,6 +95,27 @@ func c01Eval(c *choice.Ctx, st *Stats, a *refmodel.Claims, deep bool) {
 		}
 		st.Outcome("cbor-not-comparable")
 	}
+	// the same map with, next to its entries, unknown unsigned keys that are congruent to the profile's claim keys modulo
+	// 2^64 / 2^32 and carry the values of a valid claims-set (they are unknown keys: ignored), plain and inside two tags
+	// (a tagging the library is free to refuse, but not to judge differently)
+	for form := 0; form < 2; form++ {
+		tree := wireTree(a, true)
+		tree.Pairs = append(tree.Pairs, c01Congruent(a.P)...)
+		how := "cbor-with-congruent-unknown-keys"
+		if form == 1 {
+			tree = mcbor.Tg(1000, mcbor.Tg(1001, tree))
+			how += "-in-two-tags"
+		}
+		wire := mcbor.Encode(tree)
+		if p, v := safely(func() { dc, derr = psatoken.DecodeClaimsFromCBOR(wire) }); p {
+			c.Failf(fmt.Sprintf("C01:panic:P%d:%s:%s", a.P, how, wantS), "DecodeClaimsFromCBOR panicked: %v\n%x", v, wire)
+		} else if derr == nil && (lit == nil || reflect.TypeOf(dc) == wantType) {
+			st.Trans.Add(1)
+			verdict(how, dc)
+		} else if want && derr != nil && form == 0 {
+			c.Failf(fmt.Sprintf("C01:valid-claims-do-not-decode:P%d:%s", a.P, how), "DecodeClaimsFromCBOR: %v\n%s", derr, desc)
+		}
+	}
 	// JSON
 	js := wireJSON(a)
 	if p, v := safely(func() { dc, derr = psatoken.DecodeClaimsFromJSON(js) }); p {
@@ -111,6 +133,25 @@ func c01Eval(c *choice.Ctx, st *Stats, a *refmodel.Claims, deep bool) {
 }
 
 var c01stats *Stats
+
+var c01CongruentPairs [3][][2]*mcbor.Node
+var c01CongruentOnce sync.Once
+
+// c01Congruent: unknown unsigned keys congruent to the claim keys of profile p, with the values of a valid claims-set.
+func c01Congruent(p int) [][2]*mcbor.Node {
+	c01CongruentOnce.Do(func() {
+		for _, pp := range []int{1, 2} {
+			for _, e := range wireTree(genValidOpt(&choice.Ctx{}, map[int]int{1: kindP1, 2: kindP2}[pp], false, true), true).Pairs {
+				if k, ok := e[0].Int(); ok && k < 0 {
+					c01CongruentPairs[pp] = append(c01CongruentPairs[pp], [2]*mcbor.Node{mcbor.U(uint64(k)), e[1]})
+				} else if ok {
+					c01CongruentPairs[pp] = append(c01CongruentPairs[pp], [2]*mcbor.Node{mcbor.U(1<<32 + uint64(k)).W(8), e[1]})
+				}
+			}
+		}
+	})
+	return c01CongruentPairs[p]
+}
 
 func init() {
 	for _, p := range []int{1, 2} {
@@ -273,7 +314,7 @@ func init() {
 	Checks["C01"] = func(r *evid.Run) {
 		registerStandardExt()
 		c01stats = NewStats()
-		dl := deadline(r, 50*time.Second, 15*time.Minute)
+		dl := deadline(r, 100*time.Second, 15*time.Minute)
 		for _, p := range []int{1, 2} {
 			exploreChoiceOpts(r, registerAfterPriorCalls(fmt.Sprintf("c01.coarse.p%d.b1", p)), 2, dl, 1)
 		}
